@@ -71,7 +71,7 @@ Proof.
   match type of H with bind ?r _ = _ => destruct r as [[]|]; [|discriminate] end. cbn [bind] in H.
   rewrite Hlt in H.
   match type of H with context [store_position (w_eng w) ?V ?T ?P] => set (w1 := set_eng w (store_position (w_eng w) V T P)) in * end.
-  assert (Hr2 : exists msgs1 rq, (if sgtb mtv szero then if t_native (w_tok w1) then do rq0 <- cadd (sf_required funds) swap_margin; Ok (st1, [], rq0)
+  assert (Hr2 : exists msgs1 rq, (if sgtb mtv szero then if t_native (w_tok w1) then do rq0 <- cadd (sf_required funds) (sval mtv); Ok (st1, [], rq0)
                                   else Ok (st1, [execute_transfer_from w1 (ts_trader tm) A_ENGINE (sval mtv)], sf_required funds)
                                   else Ok (st1, [], sf_required funds)) = Ok (st1, msgs1, rq) /\
                   no_draws msgs1 /\ (forall a, a <> A_ENGINE -> paid_to a msgs1 = 0) /\ (forall a, a <> ts_trader tm -> pulled_from a msgs1 = 0)).
